@@ -26,7 +26,7 @@ def part_cooc(ctx):
     ps = [{"excluded": [2], "mask": False}, {"excluded": [2], "mask": True}, {"excluded": [0, 2], "mask": False}]
     cfgs = [cooc_cfg.cfg(k, w, [cooc_cfg.win(o, r)]) for k in ("flat", "harmonic") for w in (False, True) for o in ("after", "directional")
             for r in (1, 2)]
-    items = cooc_gen.emit(ctx, V, ctx.pick(4, 5), 2, cfgs, "Cooc: transform corpora with unseen tokens",
+    items = cooc_gen.emit_shapes(ctx, V, ctx.pick([(4, 1), (2, 2)], [(5, 1), (3, 2)]), cfgs, "Cooc: transform corpora with unseen tokens",
                           extra_constants=dict(Prunes=c14.tla_prunes(ps)))
     if len(items) > ctx.pick(1500, 40000):
         ctx.exhaustive = False
